@@ -5,16 +5,12 @@ C39 — Textual default values round-trip exactly.
 For every scalar kind and value and both default-value formats (`Descriptor`, `GoTag`), `Unmarshal`
 of `Marshal`'s text reproduces the value (all NaNs equal).  Statements are about the model of
 `internal/encoding/defval/default.go` in `Model/DefVal.lean`; `strconv`'s float formatting/parsing is a
-parameter (`FloatCodec`) whose round-trip laws are *hypotheses* (`Law64`, `Law32Via64`, `Law32`).
+parameter (`FloatCodec`) whose round-trip laws are *hypotheses* (`Law64`, `Law32`).
 
-Unchanged tree (DESIGN finding 16): `Unmarshal` parses `FloatKind` text at 64 bits and narrows, so the
-float32 law the code needs (`Law32Via64`) is false for the bit patterns `0x15AE43FD`/`0x95AE43FD`
-(double rounding).  The full-strength float32 statement is therefore proved
-  * as `float_roundtrip_partial` for every value outside a set `bad` on which the law is not assumed,
-  * negated on the concrete witness in `float_double_rounding_witness` (its two `strconv` facts are checked
-    against Go by the harness),
-  * and at full strength for the repaired code in `float_roundtrip_fixed` (`unmarshalFixed`,
-    `fixes/defval-float32-parse.diff`).
+History (DESIGN finding 16, fixed in /repo ca80197): `Unmarshal` used to parse `FloatKind` text at 64 bits
+and narrow, which rounded twice for the float32 patterns `0x15AE43FD`/`0x95AE43FD`.  The code (and this model)
+now takes the value from `ParseFloat(s, 32)`; `float_roundtrip` is stated at full strength for every bit
+pattern, and `float_former_witness` records that the former witness now comes back.
 -/
 namespace C39
 open Model.DefVal
@@ -178,9 +174,9 @@ theorem double_roundtrip (fc : FloatCodec) (h : fc.Law64) (b : BitVec 64) (f : F
 theorem narrow_widen_finite (b : BitVec 32) (h : isFinite32 b = true) : narrow (widen b) = b :=
   narrow_widen b h
 
-/-- the float hypotheses are satisfiable (even with `bad` empty) by a codec that is not strconv:
+/-- the float hypotheses are satisfiable by a codec that is not strconv:
 the decimal text of the bit pattern -/
-example : ∃ fc : FloatCodec, fc.Law64 ∧ fc.Law32Via64 (fun _ => False) ∧ fc.Law32 :=
+example : ∃ fc : FloatCodec, fc.Law64 ∧ fc.Law32 :=
   ⟨exampleCodec, exampleCodec_laws⟩
 
 /-- the three non-finite classes of float32 -/
@@ -188,50 +184,24 @@ theorem float_nonfinite (fc : FloatCodec) (b : BitVec 32) (hnf : isFinite32 b = 
     (evs : List EnumValue) :
     ∃ s b', marshal fc (.float32 b) none .float f = some s ∧
       unmarshal fc s .float evs f = some (.float32 b', none) ∧
-      unmarshalFixed fc s .float evs f = some (.float32 b', none) ∧
       Value.same (.float32 b) (.float32 b') = true := by
   rcases float32_trichotomy b with hfin | hinf | hnan
   · rw [hfin] at hnf; cases hnf
   · rcases inf32_cases b hinf with rfl | rfl
-    · exact ⟨sInf, posInf32, rfl, rfl, rfl, by decide⟩
-    · exact ⟨sNegInf, negInf32, rfl, rfl, rfl, by decide⟩
+    · exact ⟨sInf, posInf32, rfl, rfl, by decide⟩
+    · exact ⟨sNegInf, negInf32, rfl, rfl, by decide⟩
   · have hw := widen_nan b hnan
     have n1 : widen b ≠ negInf64 := by intro e; rw [e] at hw; revert hw; decide
     have n2 : widen b ≠ posInf64 := by intro e; rw [e] at hw; revert hw; decide
-    refine ⟨sNaN, narrow goNaN64, ?_, rfl, rfl, ?_⟩
+    refine ⟨sNaN, narrow goNaN64, ?_, rfl, ?_⟩
     · simp [marshal, Value.float?, marshalFloat, n1, n2, hw]
     · simp only [Value.same, hnan, Bool.true_and]
       simp; right; decide
 
-/-- PARTIAL (code as written): float32 round trip for every bit pattern outside `bad`, given the law that the
-64-bit parse followed by narrowing recovers the value outside `bad`.
-FULL statement (`bad := fun _ => False`) is false of the current code: see `float_double_rounding_witness`;
-the harness shows that `Law32Via64` holds for Go's strconv exactly with `bad = {0x15AE43FD, 0x95AE43FD}`
-(all 2^32 patterns, thorough tier). -/
-theorem float_roundtrip_partial (fc : FloatCodec) (bad : BitVec 32 → Prop) (h : fc.Law32Via64 bad)
-    (b : BitVec 32) (hb : ¬ bad b) (f : Format) (evs : List EnumValue) :
+/-- float32: for EVERY bit pattern, given the `strconv` law for 32 bits (NaNs come back as a NaN) -/
+theorem float_roundtrip (fc : FloatCodec) (h : fc.Law32) (b : BitVec 32) (f : Format) (evs : List EnumValue) :
     ∃ s b', marshal fc (.float32 b) none .float f = some s ∧
       unmarshal fc s .float evs f = some (.float32 b', none) ∧
-      Value.same (.float32 b) (.float32 b') = true := by
-  by_cases hfin : isFinite32 b = true
-  · have hw := widen_finite b hfin
-    obtain ⟨n1, n2, n3⟩ := finite64_not_special _ hw
-    have hns := h.notSpecial b hfin
-    simp only [specials, List.mem_cons, List.not_mem_nil, or_false, not_or] at hns
-    have hr := h.roundtrip b hfin hb
-    refine ⟨fc.format32 (widen b), b, ?_, ?_, by simp [Value.same]⟩
-    · simp [marshal, Value.float?, marshalFloat, n1, n2, n3]
-    · simp only [unmarshal, parseFloatText, hns.1, hns.2.1, hns.2.2, if_false]
-      cases hp : fc.parse64 (fc.format32 (widen b)) with
-      | none => rw [hp] at hr; cases hr
-      | some d => rw [hp] at hr; simp at hr; simp [hr]
-  · obtain ⟨s, b', h1, h2, _, h4⟩ := float_nonfinite fc b (by simpa using hfin) f evs
-    exact ⟨s, b', h1, h2, h4⟩
-
-/-- the float32 round trip at full strength for the repaired `Unmarshal` (value from `ParseFloat(s, 32)` for `FloatKind`) -/
-theorem float_roundtrip_fixed (fc : FloatCodec) (h : fc.Law32) (b : BitVec 32) (f : Format) (evs : List EnumValue) :
-    ∃ s b', marshal fc (.float32 b) none .float f = some s ∧
-      unmarshalFixed fc s .float evs f = some (.float32 b', none) ∧
       Value.same (.float32 b) (.float32 b') = true := by
   by_cases hfin : isFinite32 b = true
   · have hw := widen_finite b hfin
@@ -241,43 +211,42 @@ theorem float_roundtrip_fixed (fc : FloatCodec) (h : fc.Law32) (b : BitVec 32) (
     refine ⟨fc.format32 (widen b), b, ?_, ?_, by simp [Value.same]⟩
     · simp [marshal, Value.float?, marshalFloat, n1, n2, n3]
     · obtain ⟨d, hd⟩ := Option.isSome_iff_exists.1 (h.accepted b hfin)
-      simp [unmarshalFixed, hns.1, hns.2.1, hns.2.2, h.roundtrip b hfin, hd]
-  · obtain ⟨s, b', h1, _, h3, h4⟩ := float_nonfinite fc b (by simpa using hfin) f evs
-    exact ⟨s, b', h1, h3, h4⟩
+      simp [unmarshal, parseFloatText, hns.1, hns.2.1, hns.2.2, h.roundtrip b hfin, hd]
+  · exact float_nonfinite fc b (by simpa using hfin) f evs
 
-/-- NEGATION of the full float32 statement on the concrete witness `0x15AE43FD`: with the two facts about
-Go's strconv that the harness checks (`FormatFloat(float64(x),'g',-1,32) = "7.038531e-26"`,
-`ParseFloat("7.038531e-26", 64) = 0x3AB5C87FB0000000` — a 64-bit value exactly half-way between two float32s),
-`Unmarshal(Marshal(x))` is `0x15AE43FE ≠ x`: the narrowing rounds a second time (ties-to-even). -/
-theorem float_double_rounding_witness (fc : FloatCodec)
+/-- The former witness of finding 16: with the facts about Go's strconv that the harness checks
+(`FormatFloat(float64(x),'g',-1,32) = "7.038531e-26"`, `ParseFloat` accepts it at 64 bits, and at 32 bits it
+yields `x` itself, `0x3AB5C87FA0000000` as a float64), `Unmarshal(Marshal(0x15AE43FD))` is `0x15AE43FD`. -/
+theorem float_former_witness (fc : FloatCodec)
     (hfmt : fc.format32 (widen 0x15AE43FD#32) = witnessText)
-    (hparse : fc.parse64 witnessText = some 0x3AB5C87FB0000000#64) (f : Format) (evs : List EnumValue) :
+    (hparse64 : (fc.parse64 witnessText).isSome = true)
+    (hparse32 : fc.parse32 witnessText = 0x3AB5C87FA0000000#64) (f : Format) (evs : List EnumValue) :
     marshal fc (.float32 0x15AE43FD#32) none .float f = some witnessText ∧
-    unmarshal fc witnessText .float evs f = some (.float32 0x15AE43FE#32, none) ∧
-    Value.same (.float32 0x15AE43FD#32) (.float32 0x15AE43FE#32) = false := by
+    unmarshal fc witnessText .float evs f = some (.float32 0x15AE43FD#32, none) := by
   have hw : widen 0x15AE43FD#32 = 0x3AB5C87FA0000000#64 := by decide
-  refine ⟨?_, ?_, by decide⟩
+  obtain ⟨d, hd⟩ := Option.isSome_iff_exists.1 hparse64
+  refine ⟨?_, ?_⟩
   · simp only [marshal, Value.float?, Option.map_some, marshalFloat]
     rw [hw] at hfmt ⊢
     rw [if_neg (by decide), if_neg (by decide), if_neg (by decide)]
     simp [hfmt]
-  · have e : parseFloatText fc witnessText = some 0x3AB5C87FB0000000#64 := by
+  · have e : parseFloatText fc .float witnessText = some 0x3AB5C87FA0000000#64 := by
       simp only [parseFloatText]
-      rw [if_neg (by decide), if_neg (by decide), if_neg (by decide), hparse]
+      rw [if_neg (by decide), if_neg (by decide), if_neg (by decide), hd]
+      simp [hparse32]
     simp only [unmarshal, e, Option.map_some]
-    have : narrow 0x3AB5C87FB0000000#64 = 0x15AE43FE#32 := by decide
+    have : narrow 0x3AB5C87FA0000000#64 = 0x15AE43FD#32 := by decide
     rw [this]
 
 /-! ## every kind, both formats -/
 
 /-- `Unmarshal(Marshal(v))` gives `v` back (NaNs as a NaN) for every well-typed value of every scalar kind in
-both formats, under the strconv laws (float32 outside `bad`: see above) and, for enums, for a value of the
+both formats, under the strconv laws and, for enums, for a value of the
 enum whose names and numbers are pairwise distinct (for aliases see `enum_roundtrip_descriptor`,
 `enum_roundtrip_gotag_number`). -/
-theorem defval_roundtrip (fc : FloatCodec) (bad : BitVec 32 → Prop) (h64 : fc.Law64) (h32 : fc.Law32Via64 bad)
+theorem defval_roundtrip (fc : FloatCodec) (h64 : fc.Law64) (h32 : fc.Law32)
     (k : Kind) (v : Value) (f : Format) (evs : List EnumValue) (ev : Option EnumValue)
     (hty : wellTyped k v = true)
-    (hbad : ∀ b, v = .float32 b → ¬ bad b)
     (henum : k = .enum → ∃ e, ev = some e ∧ e ∈ evs ∧ v = .enum e.number ∧
       evs.Pairwise (fun x y => x.name ≠ y.name) ∧ evs.Pairwise (fun x y => x.number ≠ y.number)) :
     ∃ s v', marshal fc v ev k f = some s ∧
@@ -319,7 +288,7 @@ theorem defval_roundtrip (fc : FloatCodec) (bad : BitVec 32 → Prop) (h64 : fc.
     exact ⟨formatUint x.toNat, .uint64 x, by simp [marshal, Value.uint?], by simp [unmarshal, this],
       by simp [Value.same]⟩
   case float.float32 b =>
-    obtain ⟨s, b', h1, h2, h3⟩ := float_roundtrip_partial fc bad h32 b (hbad b rfl) f evs
+    obtain ⟨s, b', h1, h2, h3⟩ := float_roundtrip fc h32 b f evs
     exact ⟨s, .float32 b', h1, by simpa using h2, h3⟩
   case double.float64 b =>
     obtain ⟨s, b', h1, h2, h3⟩ := double_roundtrip fc h64 b f evs
